@@ -1,6 +1,6 @@
 (** Gallina model of pint's rule-file parser over the yaml.v3 node forest:
     internal/parser/parser.go (Parse, parseNode, tryParseGroup, parseRule, ensureRequiredKeys,
-    validateStringMap, rangeFromYamlMaps), strict.go (parseGroups, parseGroup, parseRuleStrict, describeTag)
+    validateStringMap, rangeFromYamlMaps), strict.go (parseGroups, parseGroup, parseRuleStrict, describeTag, kindMismatch)
     and the parts of models.go they use (newYamlNode, newYamlMap, YamlMap.Lines) — as the code is at /repo HEAD.
 
     External library behaviour enters as Section variables with no assumed behaviour:
@@ -108,6 +108,7 @@ Section Parser.
   Variable plines : list string -> node -> nat -> nat * nat.
   Variables metric_ok lname_ok lvalue_ok dur_ok : string -> bool.
   Variable int_ok : node -> bool.          (* yaml.Node.Decode into a Go int succeeds (group limit, fix a6b0afc) *)
+  Variable null_ok : node -> bool.         (* yaml.Node.Decode into `any` succeeds and yields nil (fix b9483ac; only asked of scalars tagged !!null) *)
 
   (** models.go: newYamlNode (line extent only; offsetColumn only moves columns) *)
   Definition new_yaml_node (lines : list string) (off_line : nat) (n : node) (min_col : nat) : ynode :=
@@ -149,7 +150,8 @@ Section Parser.
           Some ({| pe_line := n_line v + off_line;
                    pe_msg := fld ++ " " ++ n_value k ++ " value must be a string, got " ++ describe_tag (n_tag v) ++ " instead" |}, lines)
         else if mem_str (n_value k) seen then
-          Some ({| pe_line := n_line k; pe_msg := "duplicated " ++ fld ++ " key " ++ n_value k |}, range_from_yaml_maps all)
+          Some ({| pe_line := n_line k + off_line; pe_msg := "duplicated " ++ fld ++ " key " ++ n_value k |},
+                (fst (range_from_yaml_maps all) + off_line, snd (range_from_yaml_maps all) + off_line))   (* fix 0202885 *)
         else validate_string_map_loop fld all off_line lines (n_value k :: seen) r
     end.
 
@@ -378,6 +380,12 @@ Section Parser.
 
   (** ---- strict.go ---- *)
 
+  (** kindMismatch (fix b22de24): an explicit tag that contradicts what the node (read through an alias) really is;
+      nodes tagged !!null are never a mismatch (an empty `rules:` stays legal). *)
+  Definition kind_mismatch (n : node) (k : kind) : bool :=
+    let m := match n_alias n with Some t => t | None => n end in
+    if String.eqb (n_tag m) nullTag then false else negb (kind_eqb (n_kind m) k).
+
   (** parseRuleStrict *)
   Fixpoint bad_rule_key (parts : list node) : option node :=
     match parts with
@@ -390,7 +398,7 @@ Section Parser.
     end.
 
   Definition parse_rule_strict (lines : list string) (n : node) : rule :=
-    if negb (is_tag (n_tag n) mapTag) then
+    if (negb (is_tag (n_tag n) mapTag) || kind_mismatch n KMapping)%bool then
       err_rule 0 0 (n_line n) ("rule definion must be a mapping, got " ++ describe_tag (n_tag n))
     else
       match bad_rule_key (unpack_nodes n) with
@@ -441,8 +449,11 @@ Section Parser.
       else if negb (int_ok v) then inl (gerr g kl ("group limit must be a integer, got " ++ node_value v))
       else inr g
     else if String.eqb key "labels" then
-      if negb (String.eqb (n_tag v) mapTag) then inl (gerr g kl ("group labels must be a mapping, got " ++ describe_tag (n_tag v)))
+      if (negb (String.eqb (n_tag v) mapTag) || kind_mismatch v KMapping)%bool
+      then inl (gerr g kl ("group labels must be a mapping, got " ++ describe_tag (n_tag v)))
       else
+        (* fix 17469da: `labels: *anchor` is read through the anchor *)
+        let v := match n_alias v with Some t => t | None => v end in
         let nodes := mapping_nodes v in
         match validate_string_map "labels" nodes 0 (0, 0) with
         | Some (pe, _) => inl (gerr g (pe_line pe) (pe_msg pe))
@@ -453,7 +464,8 @@ Section Parser.
             end
         end
     else if String.eqb key "rules" then
-      if negb (is_tag (n_tag v) seqTag) then inl (gerr g kl ("rules must be a list, got " ++ describe_tag (n_tag v)))
+      if (negb (is_tag (n_tag v) seqTag) || kind_mismatch v KSequence)%bool
+      then inl (gerr g kl ("rules must be a list, got " ++ describe_tag (n_tag v)))
       else inr (g_add_rules g (map (parse_rule_strict lines) (unpack_nodes v)))
     else if String.eqb key "partial_response_strategy" then
       if negb thanos then inl (gerr g kl "partial_response_strategy is only valid when parser is configured to use the Thanos rule schema")
@@ -480,7 +492,8 @@ Section Parser.
 
   (** parseGroup *)
   Definition parse_group (thanos : bool) (lines : list string) (n : node) : group :=
-    if negb (is_tag (n_tag n) mapTag) then gerr empty_group (n_line n) ("group must be a mapping, got " ++ describe_tag (n_tag n))
+    if (negb (is_tag (n_tag n) mapTag) || kind_mismatch n KMapping)%bool
+    then gerr empty_group (n_line n) ("group must be a mapping, got " ++ describe_tag (n_tag n))
     else group_loop thanos lines (kind_eqb (n_kind n) KMapping) (n_line n) empty_group [] (mapping_nodes n).
 
   (** parseGroups: inl = error (groups dropped), inr = groups.  [names]/[acc] thread through all roots. *)
@@ -505,7 +518,7 @@ Section Parser.
           inl {| pe_line := n_line k; pe_msg := "unexpected key " ++ node_value k |}
         else if has_groups then
           inl {| pe_line := n_line k; pe_msg := "duplicated key " ++ node_value k |}
-        else if negb (is_tag (n_tag v) seqTag) then
+        else if (negb (is_tag (n_tag v) seqTag) || kind_mismatch v KSequence)%bool then
           inl {| pe_line := n_line k; pe_msg := "groups value must be a list, got " ++ describe_tag (n_tag v) |}
         else
           match groups_of_seq thanos lines (unpack_nodes v) names acc with
@@ -519,7 +532,7 @@ Section Parser.
     match roots with
     | [] => inr (names, acc)
     | n :: r =>
-        if negb (is_tag (n_tag n) mapTag) then
+        if (negb (is_tag (n_tag n) mapTag) || kind_mismatch n KMapping)%bool then
           inl {| pe_line := n_line n; pe_msg := "top level field must be a groups key, got " ++ describe_tag (n_tag n) |}
         else
           match groups_of_entries thanos lines (mapping_nodes n) false names acc with
@@ -620,6 +633,54 @@ Section Parser.
   Definition multi_doc_error (line : nat) : perror :=
     {| pe_line := line; pe_msg := "multi-document YAML files are not allowed" |}.
 
+  (** The two strict-mode pre-passes of Parser.Parse (fixes b9483ac, e113542): depth-first search, the node itself, then
+      its alias target, then its content (the Go code skips nodes it has already seen; on the inlined unfolding of the
+      alias graph a second visit of a subtree finds nothing the first visit did not return). *)
+  Fixpoint find_node (P : node -> option node) (n : node) {struct n} : option node :=
+    match P n with
+    | Some x => Some x
+    | None =>
+        match (match n_alias n with Some t => find_node P t | None => None end) with
+        | Some x => Some x
+        | None =>
+            (fix go (l : list node) : option node :=
+               match l with
+               | [] => None
+               | c :: r => match find_node P c with Some x => Some x | None => go r end
+               end) (n_content n)
+        end
+    end.
+
+  (** nullTagWithText: a scalar tagged !!null that yaml does not decode to nil (`!!null x`) *)
+  Definition null_with_text (n : node) : option node :=
+    if (kind_eqb (n_kind n) KScalar && String.eqb (n_tag n) nullTag && negb (null_ok n))%bool then Some n else None.
+
+  (** duplicatedMergeKey: the second `<<` key of a mapping *)
+  Fixpoint second_merge_key (l : list node) (merges : nat) : option node :=
+    match l with
+    | k :: _ :: r =>
+        if (String.eqb (n_tag k) mergeTag && String.eqb (n_value k) "<<")%bool then
+          match merges with
+          | 0 => second_merge_key r 1
+          | _ => Some k
+          end
+        else second_merge_key r merges
+    | _ => None
+    end.
+
+  Definition dup_merge_key (n : node) : option node :=
+    if kind_eqb (n_kind n) KMapping then second_merge_key (n_content n) 0 else None.
+
+  Definition strict_prepass (d : node) : option perror :=
+    match find_node null_with_text d with
+    | Some n => Some {| pe_line := n_line n; pe_msg := "cannot decode `" ++ n_value n ++ "` as a null" |}
+    | None =>
+        match find_node dup_merge_key d with
+        | Some n => Some {| pe_line := n_line n; pe_msg := "duplicated " ++ n_value n ++ " key" |}
+        | None => None
+        end
+    end.
+
   Fixpoint parse_strict_loop (thanos : bool) (all_lines : list string) (ds : docs) (yerr : option perror) (index : nat)
            (groups : list group) (err : option perror) : file :=
     match ds with
@@ -628,12 +689,16 @@ Section Parser.
             | None => {| f_groups := groups; f_error := err |}
             end
     | (d, nl) :: r =>
-        match parse_groups thanos (firstn nl all_lines) d with
-        | inl e => {| f_groups := groups; f_error := Some e |}
-        | inr gs =>
-            let index := S index in
-            parse_strict_loop thanos all_lines r yerr index (app groups gs)
-                              (if Nat.ltb 1 index then Some (multi_doc_error (n_line d)) else None)
+        match strict_prepass d with
+        | Some e => {| f_groups := groups; f_error := Some e |}
+        | None =>
+            match parse_groups thanos (firstn nl all_lines) d with
+            | inl e => {| f_groups := groups; f_error := Some e |}
+            | inr gs =>
+                let index := S index in
+                parse_strict_loop thanos all_lines r yerr index (app groups gs)
+                                  (if Nat.ltb 1 index then Some (multi_doc_error (n_line d)) else None)
+            end
         end
     end.
 
